@@ -9,7 +9,7 @@ from ..core import CTX, attempt, held, violated, undefined, same_array, short
 from .. import gen
 
 PROP = "C18"
-LEVEL_TEXT = 'Field-wise oracle with unique entry ids; alignment contract (all fields equally long, len agrees) on every result; index kinds incl. python bool lists, conversion to reordered narrower classes, Fortran-ordered 2-D fields, VarLenArray padding. Exploration.'
+LEVEL_TEXT = 'Field-wise oracle with unique entry ids; alignment contract (all fields equally long, len agrees) on every result; index kinds incl. python bool lists, equality of tables whose columns differ only in entry shape, conversion to reordered narrower classes, Fortran-ordered 2-D fields, VarLenArray padding. Exploration.'
 LEVEL_NOTE = "trusts numpy 2.x, CPython (copy.copy, slice semantics, big ints) and the reference model in rtmon/props/c18.py; decides the executions it produces, nothing more"
 TECHNIQUE = 'runtime monitoring: reference-model oracle (same selector on each generating field) + field-alignment contract'
 DESIGN_REF = "DESIGN.md sections 0, 5 (C18), 7"
@@ -22,7 +22,7 @@ ANCHORS = ["npdataclasses.py::NpDataClass._assert_same_lens", "npdataclasses.py:
            "npdataclasses.py::NpDataClass.astype", "npdataclasses.py::VarLenArray.__array_function__", "npdataclasses.py::NpDataClass.__len__"]
 OPS = ["len", "badlen", "idx", "iter", "concat", "eq", "astype", "vla", "inherit"]
 FLOOR_TAGS = ["op:" + o for o in OPS] + ["idx:int", "idx:slice", "idx:list", "idx:mask", "idx:boollist", "idx:emptylist", "len:0", "fields:1", "fields:4",
-                                         "astype:reordered", "astype:same-order", "eq:same", "eq:cell-differs", "eq:length-differs", "field:2d", "field:float", "badlen:first", "badlen:other", "vla:fortran", "inherit:badlen", "inherit:eq", "inherit:idx"]
+                                         "astype:reordered", "astype:same-order", "eq:same", "eq:cell-differs", "eq:length-differs", "eq:shape-differs", "field:2d", "field:float", "badlen:first", "badlen:other", "vla:fortran", "inherit:badlen", "inherit:eq", "inherit:idx"]
 FLOOR_MONITORS = ["c18:compare", "c18:aligned"]
 N_RANDOM = {"quick": 32000, "thorough": 200000}
 _CLS = {}
@@ -250,6 +250,20 @@ def run(case):
             fs2[i].reshape(-1)[case["cell"] % fs2[i].size] += 1
         elif mode == "length-differs":
             fs2 = [field(kd, i, L + 1) for i, kd in enumerate(kinds)]
+        elif mode == "shape-differs":
+            # same number of entries, but one column has another entry shape that numpy would broadcast:
+            # entry i is a different object in the two tables although the cells repeat the same numbers
+            i = case["which"] % k
+            col = np.arange(L, dtype=np.int64) * 10 + 7
+            if case["variant"] == "1d-vs-2d":
+                mine, theirs = col, np.tile(col, (L, 1))                    # (L,) against (L, L) whose rows repeat it
+            else:
+                mine, theirs = col[:, None], np.repeat(col[:, None], case["width"], axis=1)   # (L, 1) against (L, w) with constant rows
+            if case.get("swap"):
+                mine, theirs = theirs, mine
+            fs1 = [f.copy() for f in fs]
+            fs1[i], fs2[i] = mine, theirs
+            o = C(*fs1)
         o2 = C(*fs2)
         a = attempt(lambda: o == o2)
         want = mode == "same"
@@ -319,8 +333,12 @@ def gen_case(rng, tier, op=None, k=None, L=None):
     elif op == "concat":
         c["others"] = [rng.randint(0, 4) for _ in range(rng.randint(0, 3))]
     elif op == "eq":
-        c["mode"] = rng.choice(["same", "cell-differs", "length-differs"]) if L > 0 else rng.choice(["same", "length-differs"])
+        c["mode"] = rng.choice(["same", "cell-differs", "length-differs", "shape-differs"]) if L > 0 else rng.choice(["same", "length-differs"])
         c.update(which=rng.randrange(k), cell=rng.randrange(100))
+        if c["mode"] == "shape-differs":
+            c.update(variant=rng.choice(["1d-vs-2d", "narrow-vs-wide"]), width=rng.randint(2, 4), swap=rng.random() < 0.5)
+            if c["variant"] == "1d-vs-2d" and L == 1:
+                c["variant"] = "narrow-vs-wide"
     elif op == "astype":
         m = rng.randint(1, k)
         c["order"] = rng.sample(range(k), m)
